@@ -115,6 +115,8 @@ def dec(v):
     if isinstance(v, str):
         return v
     if isinstance(v, list):
+        if v and v[0] == "x":
+            return float.fromhex(v[1])      # a binary64 value given exactly (float-boundary stream)
         return F(v[0], v[1])
     return F(v)
 
@@ -136,6 +138,8 @@ def as_number(v, exact):
         return math.inf
     if v == "-inf":
         return -math.inf
+    if isinstance(v, float):
+        return v
     return XF(v) if exact else float(v)
 
 
@@ -880,7 +884,7 @@ def c_expr(e):
     return f"(EBin {op} {c_expr(e[2])} {c_expr(e[3])})"
 
 
-HEADER = """From Coq Require Import NArith QArith.
+HEADER = """From Coq Require Import NArith QArith Qabs.
 From Verif Require Import model.Common model.Formula.
 Open Scope Q_scope.
 Definition rows_ok (p : list step * list (N * bool)) (rows : list (list (N * inp) * outcome)) : bool :=
@@ -1237,6 +1241,226 @@ def row_labels(case):
     return sorted(out)
 
 
+# ----------------------------------------------------------------------------- float boundary stream
+# binary64 boundary magnitudes; cases of this stream run on ordinary floats only.
+import sys as _sys
+FMAX = _sys.float_info.max
+FBOUND = [FMAX, -FMAX, math.nextafter(FMAX, 0), -math.nextafter(FMAX, 0), FMAX / 2, -FMAX / 2, FMAX / 4, 1e308, -1e308,
+          5e-324, -5e-324, 2.2250738585072014e-308, 1e-310, 0.0, -0.0, 1.0, -1.0, 2.0, 0.5, 3.0, -2.0, 1e154, 1.5]
+
+
+def xenc(f):
+    return ["x", float(f).hex()]
+
+
+def gen_fvalue(rng, p_missing):
+    if rng.random() < p_missing:
+        return rng.choice(MISSING)
+    return xenc(rng.choice(FBOUND))
+
+
+def fl_fetch(v, nz):
+    """float an input contributes: its value, or (missing) 0.0 / None"""
+    v = dec(v)
+    if isinstance(v, str):
+        return 0.0 if nz else None
+    return float(v)
+
+
+def fl_bin(op, a, b, tr):
+    """IEEE binary64 arithmetic as Python floats do it (None = missing/NaN); tr: exactness trace"""
+    if a is None or b is None:
+        return None
+    if op in ("+", "-", "*", "/"):
+        if op == "/" and b == 0:
+            return None
+        try:
+            r = a + b if op == "+" else a - b if op == "-" else a * b if op == "*" else a / b
+        except OverflowError:
+            r = math.inf
+        if math.isfinite(a) and math.isfinite(b):
+            ex = F(a) + F(b) if op == "+" else F(a) - F(b) if op == "-" else F(a) * F(b) if op == "*" else F(a) / F(b)
+            if not ((math.isfinite(r) and F(r) == ex) or (math.isinf(r) and abs(ex) >= 2 ** 1024)):
+                tr.append("inexact")
+    elif op == "max":
+        r = b if b > a else a
+    elif op == "min":
+        r = b if b < a else a
+    else:
+        raise ValueError(op)
+    return None if math.isnan(r) else r
+
+
+def fl_hb(t, row, nzf, tr):
+    k = t[0]
+    if k == "s":
+        return fl_fetch(row[str(t[1])], nzf(t[1]))
+    a = fl_hb(t[1], row, nzf, tr)
+    if k == "u":
+        if a is None:
+            return None
+        return (0 if 0 > a else a) if t[2] == "consumption" else (0 if 0 > -a else -a)
+    if k == "e":
+        b = fl_fetch(row[str(t[3])], nzf(t[3]))
+    elif k == "c":
+        c = dec(t[3])
+        b = None if c in ("nan", "none") else math.inf if c == "inf" else -math.inf if c == "-inf" else float(c)
+    else:
+        b = fl_hb(t[3], row, nzf, tr)
+    return fl_bin(t[2], a, b, tr)
+
+
+def fl_ast(e, row, nz, tr):
+    if e[0] == "v":
+        return fl_fetch(row[str(e[1])], nz)
+    if e[0] == "p":
+        return fl_ast(e[1], row, nz, tr)
+    return fl_bin(e[1], fl_ast(e[2], row, nz, tr), fl_ast(e[3], row, nz, tr), tr)
+
+
+def via_engine_f(v, src_nz):
+    """what a from_receiver source engine forwards (float run): a non-finite / missing sample becomes None
+    or, with nones_are_zeros, 0.0"""
+    d = dec(v)
+    if isinstance(d, str):
+        return xenc(0.0) if src_nz else "none"
+    return v
+
+
+def judge_float_rows(case, outs, ref_fn, out, who=""):
+    """None iff an input is missing (per nones_are_zeros) or the IEEE result is nan/inf; else that float"""
+    for g in outs[len(case["rows"]):]:
+        out.append({"what": f"sample-count: {who}samples at unexpected timestamps {g} (float run)", "finding": None})
+    for k, row in enumerate(case["rows"]):
+        want = ref_fn(row)
+        if want is not None and not math.isfinite(want):
+            want = None
+        g = outs[k] if k < len(outs) else "dropped"
+        if g == "dropped":
+            out.append({"what": f"no-sample: {who}nothing emitted for timestamp {k} (float run); expected {want!r}", "finding": None})
+        elif isinstance(g, list) and g and g[0] in ("dup", "extra"):
+            out.append({"what": f"sample-count: {who}{g} at timestamp {k} (float run)", "finding": None})
+        elif want is None:
+            if g is not None:
+                out.append({"what": f"none-expected: {who}timestamp {k}: an input is missing or the IEEE result is nan/inf but {g} was emitted (float run)", "finding": None})
+        elif g is None:
+            out.append({"what": f"value-expected: {who}timestamp {k}: all needed inputs are present and the IEEE result {want!r} is finite but None was emitted (float run)", "finding": None})
+        else:
+            x = float(g[1]) if g[0] == "float" else float(F(g[0], g[1]))
+            if not (x == want or math.isclose(x, want, rel_tol=1e-12, abs_tol=0.0)):
+                out.append({"what": f"value: {who}timestamp {k} should be {want!r} but {x!r} was emitted (float run)", "finding": None})
+        if out:
+            break
+
+
+def gen_full_paren_ast(rng, depth, ids):
+    """every operand that is not a metric is parenthesised: the shunting yard cannot re-associate,
+    so the float result is the float evaluation of the tree"""
+    if depth == 0 or rng.random() < 0.25:
+        return ["v", rng.choice(ids)]
+    wrap = lambda x: x if x[0] == "v" else ["p", x]
+    return ["b", rng.choice(BOPS), wrap(gen_full_paren_ast(rng, depth - 1, ids)), wrap(gen_full_paren_ast(rng, depth - 1, ids))]
+
+
+def gen_float_case(rng):
+    ids = rng.sample([0, 1, 2, 3], rng.randint(1, 3))
+    nz = rng.random() < 0.3
+    if rng.random() < 0.4:
+        ast_ = gen_full_paren_ast(rng, rng.randint(1, 3), ids)
+        names = sorted(ast_vars(ast_))
+        case = {"kind": "str", "ast": ast_, "ws": [1], "nz": nz}
+    else:
+        def tree(d):
+            if d == 0:
+                return ["s", rng.choice(ids)]
+            base = tree(d - 1 if rng.random() < 0.7 else 0)
+            r = rng.random()
+            if r < 0.12:
+                return ["u", base, rng.choice(["consumption", "production"])]
+            op = rng.choice(HOPS)
+            if r < 0.5:
+                return ["e", base, op, rng.choice(ids)]
+            if r < 0.75:
+                return ["c", base, op, xenc(rng.choice(FBOUND))]
+            return ["b", base, op, tree(rng.randint(0, d - 1))]
+        t = tree(rng.randint(1, 3))
+        names = sorted(hb_names(t))
+        case = {"kind": "ho", "tree": t, "nz": nz, "src_nz": {str(n): rng.random() < 0.15 for n in names}}
+    pm = rng.choice([0.0, 0.0, 0.15])
+    case["rows"] = [{str(n): gen_fvalue(rng, pm) for n in names} for _ in range(rng.randint(2, 4))]
+    case["float_only"] = True
+    return case
+
+
+def float_boundary_seeds():
+    M, H = xenc(FMAX), xenc(FMAX / 2)
+    rows = [{"0": M, "1": xenc(0.0)}, {"0": xenc(-FMAX), "1": xenc(1.0)}, {"0": H, "1": H}, {"0": M, "1": M},
+            {"0": xenc(math.nextafter(FMAX, 0)), "1": xenc(1.0)}, {"0": xenc(5e-324), "1": xenc(2.0)}, {"0": xenc(-0.0), "1": xenc(3.0)}]
+    out = []
+    for op in HOPS:
+        out.append({"kind": "ho", "tree": ["e", ["s", 0], op, 1], "nz": False, "src_nz": {"0": False, "1": False}, "rows": rows, "float_only": True})
+    for op in BOPS:
+        out.append({"kind": "str", "ast": ["b", op, ["v", 0], ["v", 1]], "ws": [1], "nz": False, "rows": rows, "float_only": True})
+    out.append({"kind": "ho", "tree": ["c", ["s", 0], "*", xenc(2.0)], "nz": False, "src_nz": {"0": False}, "float_only": True,
+                "rows": [{"0": H}, {"0": M}, {"0": xenc(-FMAX / 2)}]})
+    out.append({"kind": "str", "ast": ["v", 0], "ws": [1], "nz": False, "float_only": True, "rows": [{"0": M}, {"0": xenc(-FMAX)}, {"0": xenc(1.0)}]})
+    return out
+
+
+FLOAT_HEADER_EXTRA = """
+(* float-boundary stream: the same model with a rounding function that overflows beyond the largest
+   binary64 value; used only on cases whose every arithmetic step is exact or overflows for certain *)
+Definition fmax : Q := (%d # 1).
+Definition rnd_ovf (q : Q) : val :=
+  if Qle_bool (Qabs q) fmax then Num q else if Qle_bool 0 q then PInf else NInf.
+Definition rows_ok_f (p : list step * list (N * bool)) (src : list (N * bool)) (rows : list (list (N * inp) * outcome)) : bool :=
+  forallb (fun r => outcome_eqb (run_round rnd_ovf p (fun n => via_engine (nz_flag src n) (env_of (fst r) n))) (snd r)) rows.
+Definition check_float (c : (hb + list N) * bool * list (N * bool) * (list step * list (N * bool))
+                            * list (list (N * inp) * outcome)) : bool :=
+  let '(f, nz, src, ep, rows) := c in
+  match f with
+  | inl t => let p := compile_hb nz t in prog_eqb p ep && rows_ok_f p src rows
+  | inr cs => match compile_string nz cs with
+              | Some p => prog_eqb p ep && rows_ok_f p [] rows
+              | None => false
+              end
+  end.
+""" % (2 ** 1024 - 2 ** 971)
+
+
+def c_outcome_f(o):
+    if o == "dropped":
+        return "Dropped"
+    if o is None:
+        return "(Emit None)"
+    if isinstance(o, list) and o and o[0] == "float":
+        return f"(Emit (Some {cQ(F(float(o[1])))}))"
+    if isinstance(o, list) and len(o) == 2 and isinstance(o[0], int):
+        return f"(Emit (Some {cQ(F(o[0], o[1]))}))"
+    return None
+
+
+def term_float(case, obs, exact_rows):
+    """model twin (rnd_ovf) on the rows whose float evaluation is exact"""
+    rows = []
+    for k, (row, o) in enumerate(zip(case["rows"], obs["out"])):
+        if k not in exact_rows:
+            continue
+        co = c_outcome_f(o)
+        if co is None:
+            return None
+        env = "[" + "; ".join(f"({c_N(n)}, {c_inp(v)})" for n, v in sorted(row.items(), key=lambda kv: int(kv[0]))) + "]"
+        rows.append(f"({env}, {co})")
+    if case["kind"] == "ho":
+        f = f"(inl {c_hb(case['tree'])})"
+        src = "[" + "; ".join(f"({c_N(k)}, {cbool(z)})" for k, z in sorted(case.get("src_nz", {}).items(), key=lambda kv: int(kv[0]))) + "]"
+    else:
+        formula = render(case["ast"], case["ws"])
+        f = "(inr [" + "; ".join(c_N(ord(ch)) for ch in formula) + "])"
+        src = "[]"
+    return f"({f}, {cbool(case['nz'])}, {src}, {c_prog(obs)}, [{'; '.join(rows)}])"
+
+
 class FormulaStream(Stream):
     coq_header = HEADER
 
@@ -1245,3 +1469,73 @@ class FormulaStream(Stream):
 
     def shrink(self, case):
         return shrink_case(case)
+
+
+class FloatBoundaryStream(FormulaStream):
+    """Formulas on ordinary floats at the binary64 boundaries (+-max, its neighbour, halves summing to
+    max, overflowing pairs, denormals, -0.0, +-inf, NaN, None).  Oracle: independent Python-float
+    evaluation of the tree (operator API trees and fully parenthesised strings cannot be re-associated):
+    None iff an input is missing (per nones_are_zeros) or the IEEE result is nan/inf, else that float.
+    Model twin: run_round with a rounding function that overflows beyond max, on the rows whose every
+    arithmetic step is exact."""
+    name = "float_boundary"
+    check_fn = "check_float"
+    coq_header = HEADER + FLOAT_HEADER_EXTRA
+    n_quick = 250
+    n_thorough = 5000
+
+    def gen(self, rng, tier):
+        yield from float_boundary_seeds()
+        for _ in range(self.n_quick if tier == "quick" else self.n_thorough):
+            yield gen_float_case(rng)
+
+    def run_impl(self, case):
+        obs = run_case(case, exact=False)
+        obs["float_out"] = obs.get("out")
+        return obs
+
+    def _ref(self, case, tr):
+        if case["kind"] == "str":
+            return lambda row: fl_ast(case["ast"], row, case["nz"], tr)
+        src = case.get("src_nz", {})
+        return lambda row: fl_hb(case["tree"], {k: via_engine_f(v, src.get(k, False)) for k, v in row.items()}, lambda n: case["nz"], tr)
+
+    def oracle(self, case, obs):
+        out = []
+        if "error" in obs:
+            return [{"what": f"rejected: well-formed formula raised {obs['error']}", "finding": None}]
+        judge_float_rows(case, obs["out"], self._ref(case, []), out)
+        return out
+
+    def to_coq(self, case, obs):
+        if "error" in obs or len(obs["out"]) != len(case["rows"]):
+            return None
+        exact_rows = set()
+        for k, row in enumerate(case["rows"]):
+            tr = []
+            self._ref(case, tr)(row)
+            if not tr:
+                exact_rows.add(k)
+        return term_float(case, obs, exact_rows)
+
+    def key(self, case, obs):
+        return json.dumps([case.get("ast") or case.get("tree"), case["rows"]], sort_keys=True)
+
+    def labels(self, case, obs):
+        out = [case["kind"]]
+        vals = [dec(v) for r in case["rows"] for v in r.values()]
+        fl = [abs(v) for v in vals if isinstance(v, float)]
+        if any(v == FMAX for v in fl):
+            out.append("input_float_max")
+        if any(0 < v < 2.3e-308 for v in fl):
+            out.append("input_denormal")
+        outs = obs.get("out") or []
+        if any(isinstance(o, list) and o and o[0] == "float" and abs(float(o[1])) == FMAX for o in outs):
+            out.append("result_exactly_float_max")
+        if any(o is None for o in outs):
+            out.append("emits_None")
+        for k, row in enumerate(case["rows"]):
+            tr = []
+            self._ref(case, tr)(row)
+            out.append("row_inexact(oracle_only)" if tr else "row_exact(model_twin)")
+        return sorted(set(out))
